@@ -10,7 +10,7 @@ What is compared is selected by `modes`:
 import json, os, subprocess, sys, time
 import z3
 import clif
-from clif import Ptr, Unsupported, PathCut, Explorer, World, Path, Event, b2i8
+from clif import Ptr, FuncAddr, Unsupported, PathCut, Explorer, World, Path, Event, b2i8
 import lang
 from lang import INTS, FLOATS, is_int, is_float, EnumVal
 
@@ -33,6 +33,8 @@ def layout(ty, prog):
         return 0, 1
     if ty == "Tracked":
         return 16, 8
+    if ty[0] == "list":
+        return 8, 8
     if ty[0] == "rec":
         return struct_layout([t for _, t in prog.records[ty[1]]], prog)[:2]
     if ty[0] in ("enum", "opt", "verdict"):
@@ -260,6 +262,120 @@ def host_models():
         return z3.simplify(b2i8(a == b))
 
     H["@clone:Tracked"], H["@drop:Tracked"], H["@eq:Tracked"] = clone_tracked, drop_tracked, eq_tracked
+
+    # ---- lists: a storage object shared by handles (the handle value is a unique id; clone = new handle to the same storage)
+    def conc(v, what):
+        v = z3.simplify(v)
+        if not z3.is_bv_value(v):
+            raise Unsupported(f"{what} is not concrete")
+        return v.as_long()
+
+    def handle_of(path, ptr, what, consume):
+        h = conc(path.load(ptr, 8), f"list handle ({what})")
+        st = path.lists["handles"].get(h)
+        if st is None or st[1] != "live":
+            path.ledger.problems.append(f"{what} through a list handle that is {st[1] if st else 'unknown'}")
+            return None
+        if consume:
+            release(path, h)
+        return path.lists["stores"][st[0]]
+
+    def release(path, h):
+        sid, state = path.lists["handles"][h]
+        path.lists["handles"][h] = (sid, "dropped")
+        store = path.lists["stores"][sid]
+        store["handles"] -= 1
+        path.events.append(Event("own", "drop_list_handle", [h]))
+        if store["handles"] == 0:
+            # last handle: every element is dropped through the vtable's drop function
+            for e in store["elems"]:
+                if isinstance(store["drop"], FuncAddr):
+                    tmp = path.new_region("list_elem_drop", store["size"], init=e)
+                    path.call(store["drop"].name, [Ptr(tmp, 0)], 1)
+            store["elems"] = []
+
+    def new_handle(path, sid):
+        path.lists["next"] += 1
+        h = path.lists["next"]
+        path.lists["handles"][h] = (sid, "live")
+        path.lists["stores"][sid]["handles"] += 1
+        return h
+
+    def list_new(path, name, args):
+        vt = args[2]
+        size = conc(path.load(vt, 8), "vtable size")
+        align = conc(path.load(Ptr(vt.region, vt.off + 8), 8), "vtable align")
+        clone = path.load(Ptr(vt.region, vt.off + 16), 8)
+        drop = path.load(Ptr(vt.region, vt.off + 24), 8)
+        sid = len(path.lists["stores"])
+        path.lists["stores"].append({"size": size, "align": align, "clone": clone, "drop": drop, "elems": [], "handles": 0})
+        h = new_handle(path, sid)
+        path.store(args[1], z3.BitVecVal(h, 64), 8)
+        path.events.append(Event("list", "new", [sid]))
+        return None
+
+    def list_push(path, name, args):
+        store = handle_of(path, args[2], "push", consume=True)
+        if store is None:
+            return None
+        elem = [path.mem[args[3].region][args[3].off + i] for i in range(store["size"])]
+        store["elems"].append(list(elem))
+        path.events.append(Event("list", "push", [len(store["elems"])]))
+        return None
+
+    def list_len(path, name, args):
+        store = handle_of(path, args[2], "len", consume=True)
+        n = len(store["elems"]) if store else 0
+        path.store(args[1], z3.BitVecVal(n, 64), 8)
+        return None
+
+    def list_get(path, name, args):
+        store = handle_of(path, args[2], "get", consume=True)
+        out, idx = args[1], args[3]
+        found = None
+        if store is not None:
+            for i in range(len(store["elems"])):
+                if path.decide(z3.simplify(idx == z3.BitVecVal(i, 64)), f"list.get index {i}"):
+                    found = i
+                    break
+        if found is None:
+            path.store(out, z3.BitVecVal(1, 8), 1)
+            return None
+        off = (1 + store["align"] - 1) // store["align"] * store["align"]
+        src = path.new_region("list_elem", store["size"], init=store["elems"][found])
+        dst = Ptr(out.region, out.off + off)
+        if isinstance(store["clone"], FuncAddr):
+            path.call(store["clone"].name, [dst, Ptr(src, 0)], 1)
+        else:
+            path.copy(dst, Ptr(src, 0), store["size"])
+        path.store(out, z3.BitVecVal(0, 8), 1)
+        return None
+
+    def clone_list(path, tyname, args):
+        h = conc(path.load(args[1], 8), "list handle (clone)")
+        st = path.lists["handles"].get(h)
+        if st is None or st[1] != "live":
+            path.ledger.problems.append(f"clone of a list handle that is {st[1] if st else 'unknown'}")
+            return None
+        h2 = new_handle(path, st[0])
+        path.store(args[0], z3.BitVecVal(h2, 64), 8)
+        return None
+
+    def drop_list(path, tyname, args):
+        reg = path.mem.get(args[0].region)
+        if all(b is None for b in reg[args[0].off:args[0].off + 8]):
+            path.ledger.problems.append(f"drop of a list slot that was never initialised on this path ({args[0].region})")
+            return None
+        h = conc(path.load(args[0], 8), "list handle (drop)")
+        st = path.lists["handles"].get(h)
+        if st is None or st[1] != "live":
+            path.ledger.problems.append(f"drop of a list handle that is {st[1] if st else 'unknown'}")
+            return None
+        release(path, h)
+        return None
+
+    H["new"], H["push"], H["len"], H["get"] = list_new, list_push, list_len, list_get
+    H["@clone:List"], H["@drop:List"] = clone_list, drop_list
     return H
 
 
@@ -345,6 +461,7 @@ def check_program(prog, script, dump, modes, k_loop=4, depth=4, timeout_ms=10000
         def run_clif(decide):
             path = Path(world, decide, k_loop, depth)
             path.ledger = Ledger()
+            path.lists = {"stores": [], "handles": {}, "next": 5000}
             args = []
             if ret_by_ptr:
                 path.ret_region = path.new_region("ret", layout(entry.ret, prog)[0])
@@ -385,19 +502,33 @@ def check_program(prog, script, dump, modes, k_loop=4, depth=4, timeout_ms=10000
             solver.add(c)
 
         def ask(conds):
+            # a fresh (non-incremental) solver per query: z3's incremental core skips the preprocessing that makes
+            # byte-wise Extract/Concat round trips through memory cheap
             out.queries += 1
-            solver.push()
+            sv = z3.Solver()
+            sv.set("timeout", timeout_ms)
+            for c in cons:
+                sv.add(c)
             for c in conds:
-                solver.add(c)
-            r = solver.check()
-            m = solver.model() if r == z3.sat else None
-            solver.pop()
+                sv.add(c)
+            r = sv.check()
             if r == z3.unknown:
                 raise Unsupported("solver timeout/unknown on a comparison query")
-            return m
+            return sv.model() if r == z3.sat else None
 
         def argbits(m):
-            return [bits_of(m, t, v) for (n, t), v in zip(entry.params, ref_args) if t != "unit" and not isinstance(t, tuple)]
+            out_ = []
+            for (n, t), v in zip(entry.params, ref_args):
+                if t == "unit":
+                    continue
+                if isinstance(t, tuple) and t[0] == "opt":
+                    tag = m.eval(v.tag, model_completion=True).as_long()
+                    out_.append((1 << 63) if tag == 1 else bits_of(m, t[1], v.payloads[0][0]))
+                elif isinstance(t, tuple):
+                    raise Unsupported("argument type for replay")
+                else:
+                    out_.append(bits_of(m, t, v))
+            return out_
 
         # --- trap obligations and ledger (CLIF side only)
         for conds, res in cpaths:
@@ -412,11 +543,18 @@ def check_program(prog, script, dump, modes, k_loop=4, depth=4, timeout_ms=10000
                     # ids inside the returned bytes are moved to the caller
                     reg = path.mem[rv.region]
                     for off in range(0, max(0, len(reg) - 7)):
-                        bs = reg[off:off + 8]
-                        if all(b is not None and not isinstance(b, Ptr) for b in bs):
-                            v = z3.simplify(z3.Concat(*reversed(bs)))
+                        v = path.peek(Ptr(rv.region, off), 8)
+                        if v is not None:
+                            v = z3.simplify(v)
                             if z3.is_bv_value(v) and v.as_long() in path.ledger.state:
                                 returned.add(v.as_long())
+                # tracked values owned by a list that is still referenced by a live handle are not leaked by themselves,
+                # the live handle is
+                lists = getattr(path, "lists", None)
+                if lists:
+                    live_handles = [h for h, (sid, stt) in lists["handles"].items() if stt == "live"]
+                    if live_handles:
+                        probs.append(f"list handle(s) {live_handles} still live at return (never dropped)")
                 leaked = [i for i in live if i not in returned]
                 if leaked:
                     probs.append(f"tracked value(s) {leaked} still live at return (never dropped, not returned)")
